@@ -109,7 +109,36 @@ def bytestr_to_array(lit: str) -> str:
     return "&[" + ", ".join("%du8" % b for b in out) + "]"
 
 
-def mechanical_rewrites(text: str, toks: List[Tok]):
+def chain_start(toks: List[Tok], k: int) -> int:
+    """index of the first token of the postfix expression that ends at toks[k] (ident, `)` or `]`)"""
+    while True:
+        tk = toks[k]
+        if tk.kind == "punct" and tk.text in (")", "]"):
+            d = 0
+            while True:
+                if toks[k].kind == "punct" and toks[k].text in (")", "]"):
+                    d += 1
+                elif toks[k].kind == "punct" and toks[k].text in ("(", "["):
+                    d -= 1
+                    if d == 0:
+                        break
+                k -= 1
+            if k >= 1 and toks[k - 1].kind == "ident" and toks[k - 1].text not in ("if", "while", "match", "return", "in", "let", "else"):
+                k -= 1
+        elif tk.kind in ("ident", "num"):
+            pass
+        elif tk.kind == "punct" and tk.text == "?":
+            k -= 1
+            continue
+        else:
+            raise SpliceError("cannot find the start of a postfix expression")
+        if k >= 1 and toks[k - 1].kind == "punct" and toks[k - 1].text in (".", "::"):
+            k -= 2
+            continue
+        return k
+
+
+def mechanical_rewrites(text: str, toks: List[Tok], r12: Optional[str] = None):
     edits = []
     n = len(toks)
     for i, t in enumerate(toks):
@@ -143,39 +172,22 @@ def mechanical_rewrites(text: str, toks: List[Tok]):
                     k += 1
                 expr = text[toks[i + 3].start:toks[k - 1].end]
                 edits.append((toks[i + 1].start, toks[k - 1].end, expr + ".iter_mut()", "R7"))
+        # R12: E?  ->  (match E { Ok(v) => v, Err(e) => return Err(From::from(e)) })   [the definition of `?` on Result]
+        if r12 and t.kind == "punct" and t.text == "?" and i >= 1 and \
+                re.search(r12, text[toks[chain_start(toks, i - 1)].start:t.start]):
+            k = chain_start(toks, i - 1)
+            # nested `?` inside the same chain would overlap; not present in this code base
+            edits.append((toks[k].start, toks[k].start, "(match ", "R12a"))
+            edits.append((t.start, t.end, " { Ok(vx_v) => vx_v, Err(vx_e) => return Err(::core::convert::From::from(vx_e)) })", "R12b"))
         # R11: RECV.all(F)  ->  the loop `Iterator::all` is defined to be (short-circuiting conjunction)
         if t.kind == "ident" and t.text == "all" and i >= 1 and toks[i - 1].text == "." and i + 1 < n and toks[i + 1].text == "(":
             close = match_close(toks, i + 1)
-            # receiver: walk the postfix chain backwards
-            j = i - 1          # the '.'
-            k = j - 1
-            while True:
-                tk = toks[k]
-                if tk.kind == "punct" and tk.text in (")", "]"):
-                    d = 0
-                    while True:
-                        if toks[k].kind == "punct" and toks[k].text in (")", "]"):
-                            d += 1
-                        elif toks[k].kind == "punct" and toks[k].text in ("(", "["):
-                            d -= 1
-                            if d == 0:
-                                break
-                        k -= 1
-                    if toks[k - 1].kind == "ident":
-                        k -= 1
-                elif tk.kind == "ident":
-                    pass
-                else:
-                    raise SpliceError("R11: cannot find receiver of .all()")
-                if k >= 1 and toks[k - 1].kind == "punct" and toks[k - 1].text in (".", "::"):
-                    k -= 2
-                    continue
-                break
+            k = chain_start(toks, i - 2)
             idx = sum(1 for e in edits if e[3] == "R11a")
             edits.append((toks[k].start, toks[k].start, "{ let mut vx_it%d = " % idx, "R11a"))
             edits.append((toks[i - 1].start, toks[i + 1].end, "; let mut vx_f%d = " % idx, "R11b"))
             edits.append((toks[close].start, toks[close].end,
-                          "; let mut vx_r%d = true; loop\n/*@ALL%d@*/\n{ match vx_it%d.next() { Some(vx_x) => { if !vx_f%d(vx_x) { vx_r%d = false; break; } } None => { break; } } } vx_r%d }"
+                          "; let mut vx_r%d = true; loop\n/*@ALL%d@*/\n{\n/*@ALLPRE@*/\nmatch vx_it%d.next() { Some(vx_x) => {\n/*@ALLBODY@*/\nif !vx_f%d(vx_x) { vx_r%d = false; break; } } None => { break; } } } vx_r%d }"
                           % (idx, idx, idx, idx, idx, idx), "R11c"))
     return edits
 
@@ -366,6 +378,8 @@ class Splicer:
             if toks[1].text == "(":
                 end = toks[match_close(toks, 1) + 1].start
             edits.append((toks[0].start, end, "", "A5-vis", {}))
+        if kv.get("vis") == "pub" and toks[0].text != "pub":
+            edits.append((toks[0].start, toks[0].start, "pub ", "A5-vis", {}))
         name_tok = toks[fn_tok + 1]
         info.gen_name = name_tok.text
         # A1: named return
@@ -498,7 +512,7 @@ class Splicer:
             if name == "all":
                 ghost_check(slines, "all")
                 all_sections[int(args.strip())] = (slines, sline_no)
-        for (s, e, rep, rule) in mechanical_rewrites(text, toks):
+        for (s, e, rep, rule) in mechanical_rewrites(text, toks, kv.get("r12")):
             meta = {}
             if rule == "R11c":
                 m = re.search(r"/\*@ALL(\d+)@\*/", rep)
@@ -507,9 +521,25 @@ class Splicer:
                     slines, sline_no = all_sections.pop(k)
                     # the loop annotation becomes its own chunk so that its labels are mapped
                     pre, post = rep[:m.start()], rep[m.end():]
+                    stripped = [x.strip() for x in slines]
+                    cut_pre = stripped.index("//---pre") if "//---pre" in stripped else len(slines)
+                    cut_body = stripped.index("//---body") if "//---body" in stripped else len(slines)
+                    hdr_lines = slines[:min(cut_pre, cut_body)]
+                    pre_lines = slines[cut_pre + 1:cut_body] if cut_pre < len(slines) else []
+                    body_lines = slines[cut_body + 1:] if cut_body < len(slines) else []
+                    if pre_lines:
+                        ghost_check(pre_lines, "all-pre")
+                    if body_lines:
+                        ghost_check(body_lines, "all-body")
+                    mid0, rest_ = post.split("/*@ALLPRE@*/")
+                    mid, post2 = rest_.split("/*@ALLBODY@*/")
                     edits.append((s, s, pre, rule, {}))
-                    edits.append((s, s, "\n".join(slines), "loop", dict(tmpl=(tmpl_file, sline_no))))
-                    edits.append((s, e, post, rule, {}))
+                    edits.append((s, s, "\n".join(hdr_lines), "loop", dict(tmpl=(tmpl_file, sline_no))))
+                    edits.append((s, s, mid0, rule, {}))
+                    edits.append((s, s, "\n".join(pre_lines), "ghost", dict(tmpl=(tmpl_file, sline_no + cut_pre + 1))))
+                    edits.append((s, s, mid, rule, {}))
+                    edits.append((s, s, "\n".join(body_lines), "ghost", dict(tmpl=(tmpl_file, sline_no + cut_body + 1))))
+                    edits.append((s, e, post2, rule, {}))
                     info.rewrites.append("%s@%s:%d" % (rule, os.path.basename(sf.path), sf.line_of(base + s)))
                     continue
                 raise SpliceError("lost anchor: %s: .all() call %d has no //@all section" % (key, k))
